@@ -208,6 +208,10 @@ class Fn:
         return "<Fn %s>" % self.path
 
 
+# function lookups that found nothing since the last recorded rule instance (core.Run.anchor_missing consults them)
+MISSED = []
+
+
 class Crate:
     def __init__(self, d):
         self.d = d
@@ -222,14 +226,22 @@ class Crate:
         self.traits = d.get("traits", [])
 
     def fn(self, path):
-        return self.by_path.get(path)
+        f = self.by_path.get(path)
+        if f is None:
+            MISSED.append(path)
+        return f
 
     def fns_ending(self, suffix):
-        return [f for f in self.fns if f.path.endswith(suffix)]
+        r = [f for f in self.fns if f.path.endswith(suffix)]
+        if not r:
+            MISSED.append(suffix)
+        return r
 
     def fn1(self, suffix):
         """unique function whose path ends with `suffix` (on a :: boundary)"""
         c = [f for f in self.fns if f.path == suffix or f.path.endswith("::" + suffix)]
+        if not c:
+            MISSED.append(suffix)
         return c[0] if len(c) == 1 else None
 
     def mir_count(self):
